@@ -1089,7 +1089,8 @@ func (h *backendHandler) pingpong(st *rpcState, obs *BackendObs, rw http.Respons
 	obs.Responded = true
 }
 
-// duplex: a reader sub-task and a writer sub-task share the handler's request and writer.
+// duplex: a reader sub-task and a writer sub-task share the handler's request and writer. Like a real bidi handler
+// it ends the RPC only when both are done, and fails it in its own protocol if its reader failed.
 func (h *backendHandler) duplex(st *rpcState, obs *BackendObs, rw http.ResponseWriter, rd *reqReader) {
 	w := st.world
 	readerDone, writerDone := false, false
@@ -1106,11 +1107,39 @@ func (h *backendHandler) duplex(st *rpcState, obs *BackendObs, rw http.ResponseW
 				}
 			}
 		}()
+		// messages first, without the end of the stream
 		rr := h.renderResponse(st, obs, nil, nil)
-		h.writeResponse(st, obs, rw, rr, true)
+		body := rr.body
+		if obs.Stream && obs.Protocol != ProtoGRPC && len(rr.bounds) > rr.nmsgs {
+			body = rr.body[:rr.prefixes[len(rr.prefixes)-1]]
+		}
+		for k, v := range rr.headers {
+			rw.Header()[k] = append([]string(nil), v...)
+		}
+		rw.WriteHeader(rr.status)
+		h.writeBody(st, obs, rw, body, rr)
+		obs.SentMsgs = rr.nmsgs
+		w.Block("hwriter.await-reader", func() bool { return readerDone })
+		h.decodeRequest(obs)
+		var override *ErrSpec
+		if len(obs.Undecodable) > 0 && !st.plan.Backend.Lenient {
+			override = &ErrSpec{Code: 3, Msg: "backend: " + obs.Undecodable[0]}
+		}
+		end := h.renderResponse(st, obs, override, []MsgSpec{})
+		if override == nil && st.plan.Backend.Resp.Err != nil {
+			end = h.renderResponse(st, obs, st.plan.Backend.Resp.Err, []MsgSpec{})
+		}
+		if len(end.body) > 0 {
+			if _, err := rw.Write(end.body); err != nil {
+				obs.WriteErrs = append(obs.WriteErrs, err.Error())
+			}
+		}
+		for _, kv := range end.trailers {
+			rw.Header().Add(http.TrailerPrefix+kv[0], kv[1])
+		}
+		obs.Responded = true
 	})
 	w.Block("handler.join", func() bool { return readerDone && writerDone })
-	h.decodeRequest(obs)
 }
 
 var _ = protoreflect.Name("")
